@@ -79,7 +79,7 @@ def unwrap(payload):
 
 
 def n_cases(tier):
-    return 400 if tier == 'quick' else 450
+    return 400 if tier == 'quick' else 1500
 
 
 def make_case(seed, index, tier):
